@@ -1,53 +1,221 @@
 """C13 — Builder id discipline: fresh ids, exact bound, deduplicated implicit types.
-K: (a) the id post-conditions of the one-step Builder harness (shared with C12): every allocating call returns the old
-counter and advances it by exactly one, explicit ids are used verbatim and do not advance it, the counter never goes back
-(also on failing calls); (b) module()/new()/new_from_module bound and seed; (c) type requests type_int_id / type_pointer over
-modules with 0..2 earlier declarations from a three-declaration alphabet. T: all generated type methods share the three-way body."""
-import kani
+
+M2 (a) every Builder method (all ~1170) is executed symbolically from MIR from three selection states with the id counter
+        symbolic: the counter never decreases on any path (including failing ones); a method that hands out an id either
+        returns the explicit id it was given (counter unchanged) or the old counter value (counter advanced by exactly one);
+        any other step of the counter is reported. By induction: ids are pairwise distinct, strictly increasing, and below the counter.
+   (b) every type method (generated `type_*_id` and `type_pointer`): request -> (explicit id: appended with that id) /
+        (an earlier declaration with identical opcode and operands: its id, nothing appended) / (otherwise appended with a
+        fresh id), decided by z3 over symbolic operands on a module that already holds one declaration made by the same method.
+K  `new()` starts at 1, `new_from_module` at the header bound, `module()` writes bound = next id (harness k_builder_module)."""
+import re
+import z3
+import sym
+import mir
 import tables
-from rtok import match_close
+import reg as regmod
+import bsweep
+import kani
+import c12 as base
+import c05
+from common import mir_path, Inconclusive, Replay
+from smt import Q
 
 LEVEL = "model_checking"
 
 
-def type_method_shapes(ctx):
-    s = tables.src("rspirv/dr/build/autogen_type.rs")
-    t = s.toks
-    i, n = 0, len(t)
-    count = 0
-    while i < n - 1:
-        if t[i].v == "fn" and t[i + 1].k == "id" and t[i + 1].v.endswith("_id"):
-            name = t[i + 1].v
-            j = i
-            while t[j].v != "{":
-                j += 1
-            k = match_close(t, j)
-            body = " ".join(x.v for x in t[j + 1:k])
-            tail = ("if let Some ( result_id ) = result_id { self . module . types_global_values . push ( inst ) ; result_id } "
-                    "else if let Some ( id ) = self . dedup_insert_type ( & inst ) { id } "
-                    "else { let new_id = self . id ( ) ; inst . result_id = Some ( new_id ) ; self . module . types_global_values . push ( inst ) ; new_id }")
-            ok = body.endswith(tail) and body.count("self . id ( )") == 1
-            ctx.ob("type-method-three-way/%s" % name, True if ok else None, None if ok else "body differs from the generated three-way shape")
-            count += 1
-            i = k
-        i += 1
-    return count
+def opaque_eq(a, b):
+    return z3.Bool("eq(%s,%s)" % tuple(sorted([a, b])))
+
+
+def args_equal(engine, st, a1, a2):
+    """z3 Bool: the two argument lists denote the same request."""
+    terms = []
+    for x, y in zip(a1, a2):
+        if isinstance(x, sym.Sym) and isinstance(y, sym.Sym):
+            terms.append(opaque_eq(x.name, y.name))
+        elif isinstance(x, sym.Adt) and isinstance(y, sym.Adt) and x.ty == "Option":
+            if x.variant != y.variant:
+                return z3.BoolVal(False)
+            if x.variant == "Some":
+                terms.append(args_equal(engine, st, [x.fields[0]], [y.fields[0]]))
+        else:
+            terms.append(x == y)
+    return z3.And(*terms) if terms else z3.BoolVal(True)
 
 
 def run(ctx):
-    hs = ["k_builder_module", "k_builder_types", "k_builder_step_1_1_1", "k_builder_step_0_0_0"]
-    if ctx.tier == "thorough":
-        hs += ["k_builder_step_2_1_1", "k_builder_step_1_0_0"]
-    ctx.bounds += ["id counter any u32 in 1..=0xfffffff0; one call per state (inductive step)",
-                   "type requests: 0..=2 earlier declarations drawn from {int(32,0), int(32,1), pointer(Function,%2)}, request of the same alphabet, explicit or implicit id"]
-    ctx.assumptions += ["CoreInstructionTable::get stubbed by its contract (C09)", "outside: u32 wrap of the counter; type alphabets beyond the three declarations (the generated methods share one body, checked at token level)"]
-    ctx.trusted += ["Kani 0.68 / CBMC 6.11"]
-    ctx.functions.update(["rspirv::dr::Builder::{id,new,new_from_module,module,set_version,version,type_int_id,type_pointer,dedup_insert_type}", "dr::Instruction::is_type_identical"])
-    n = type_method_shapes(ctx)
-    ctx.extra["type_methods_same_shape"] = n
-    res = kani.run_many(hs, cap_s=600 if ctx.tier == "quick" else 2400)
+    q = Q(ctx, cross_every=500)
+    registry = regmod.build_registry()
+    mf = mir.MirFile(mir_path("rspirv"))
+    ms = mir.MirFile(mir_path("spirv"))
+    fields = {
+        "Module": c05.struct_fields("rspirv/dr/constructs.rs", "Module"),
+        "Function": c05.struct_fields("rspirv/dr/constructs.rs", "Function"),
+        "Block": c05.struct_fields("rspirv/dr/constructs.rs", "Block"),
+        "Builder": c05.struct_fields("rspirv/dr/build/mod.rs", "Builder"),
+    }
+    bidx = {n: i for i, n in enumerate(fields["Builder"])}
+    sigs = {s["name"]: s for s in tables.builder_signatures()}
+    ctx.bounds += ["id counter any u32 in 1..=0xfffffff0; one call per state (inductive step) for every Builder method from three selection states",
+                   "type requests: module holding one earlier declaration made by the same method with symbolic operands; request with fresh symbolic operands, explicit or implicit id"]
+    ctx.assumptions += ["CoreInstructionTable::get replaced by its contract (C09)", "outside: u32 wrap of the counter; opaque iterator/string arguments are compared by an uninterpreted equality",
+                        "'no duplicate types in a module built only from implicit requests' is the inductive corollary of (b), not re-checked over histories"]
+    ctx.trusted += ["rustc MIR", "mirsym and its std models", "z3", "Kani/CBMC for the module()/new()/new_from_module harness"]
+    nid = z3.BitVec("next_id", 32)
+    pre = [z3.UGE(nid, 1), z3.ULE(nid, 0xfffffff0)]
+    rp = Replay()
+    methods = bsweep.builder_methods(mf)
+    skip = {"verif_from_parts", "verif_next_id", "module", "module_ref", "module_mut", "new_from_module", "find_return_block_indices",
+            "select_function_by_name"}
+    nchecked = 0
+    for name, file, line in methods:
+        if name in skip:
+            continue
+        fn = mf.parse_item(line)
+        sig = sigs.get(name, {"ret": ""})
+        returns_id = "Word" in sig["ret"] or name == "id"
+        for sel in ((None, None), (0, None), (0, 0)):
+            eng = sym.Engine([mf, ms], registry, models=base.MODELS + bsweep.EXTRA_MODELS, eager=True, loop_bound=4)
+            combos = bsweep.signature_args(eng, fn, max_combos=3 if ctx.tier == "quick" else 6)
+            for args in combos:
+                args = list(args)
+                b0 = base.make_state((1, 1, 0, 1), sel[0], sel[1], nid, fields)
+                try:
+                    res = eng.run(fn, [sym.Ref(("h", "b"), (), True)] + args, mem={("h", "b"): b0}, pc=list(pre))
+                except mir.Unsupported as ex:
+                    ctx.ob("ids/%s/encodable" % name, None, str(ex)[:300])
+                    break
+                ctx.functions.add("dr::Builder::" + name)
+                explicit = [a.fields[0] for a in args if isinstance(a, sym.Adt) and a.ty == "Option" and a.variant == "Some" and z3.is_bv(a.fields[0]) and a.fields[0].size() == 32]
+                for r in res:
+                    nchecked += 1
+                    if r.status != "return":
+                        continue          # panics are C12's subject
+                    b1 = r.mem[("h", "b")]
+                    n1 = b1.fields[bidx["next_id"]]
+                    bad = None
+                    st, m = q.check(r.pc + [z3.ULT(n1, nid)], "counter-monotone")
+                    if st == "sat":
+                        bad = ("id-counter-went-back", "the id counter decreases", m)
+                    elif st != "unsat":
+                        ctx.ob("ids/%s" % name, None, m)
+                        continue
+                    if bad is None:
+                        st, m = q.check(r.pc + [n1 != nid, n1 != nid + 1], "counter-step")
+                        if st == "sat":
+                            bad = ("id-counter-step", "the id counter moves by something other than 0 or 1", m)
+                    val = r.value
+                    ok = not (isinstance(val, sym.Adt) and val.variant == "Err")
+                    rid = None
+                    if returns_id and ok:
+                        rid = val.fields[0] if isinstance(val, sym.Adt) and val.variant == "Ok" else val
+                    if bad is None and rid is not None and z3.is_bv(rid) and rid.size() == 32:
+                        # returned id: an explicit id (counter unchanged) or the old counter (counter + 1)
+                        legal = [z3.And(rid == nid, n1 == nid + 1)] + [z3.And(rid == e, n1 == nid) for e in explicit]
+                        # type methods may also return the id of an earlier identical declaration (counter unchanged)
+                        if name.startswith("type_"):
+                            legal.append(n1 == nid)
+                        st, m = q.check(r.pc + [z3.Not(z3.Or(*legal))], "returned-id")
+                        if st == "sat":
+                            bad = ("returned-id-not-fresh", "returns an id that is neither the explicit one nor the old counter value (or the counter does not advance by one)", m)
+                    if bad is None:
+                        ctx.ob("ids/%s" % name, True)
+                        continue
+                    w = bad[2].eval(nid, model_completion=True).as_long()
+                    ctx.ob("ids/%s" % name, False, "%s (next_id=%d, selection %s)" % (bad[1], w, sel))
+                    # native confirmation through the scenario crate is available for the calls it knows; otherwise report with the model's witness
+                    ctx.violation("builder-ids/%s/%s" % (name, bad[0]),
+                                  "Builder::%s from selection %s with next_id=%d: %s (returns %r, counter afterwards %s)" % (name, sel, w, bad[1], val, z3.simplify(z3.substitute(n1, (nid, z3.BitVecVal(w, 32))))),
+                                  {"method": name, "selection": sel, "next_id": w})
+    # ---- type requests
+    type_methods = [(n, f, l) for n, f, l in methods if (f == "autogen_type" and n.endswith("_id")) or n == "type_pointer"]
+    for name, file, line in type_methods:
+        fn = mf.parse_item(line)
+        eng = sym.Engine([mf, ms], registry, models=base.MODELS + bsweep.EXTRA_MODELS, eager=True, loop_bound=6)
+        a1 = [bsweep.synth(eng, ty, "first" + loc)[-1] if not ty.startswith("std::option::Option<u32>") and not ty.startswith("Option<u32>") else sym.Adt("Option", "None", [])
+              for loc, ty in fn.args[1:]]
+        b0 = base.make_state((0, 0, 0, 0), None, None, nid, fields)
+        try:
+            r1 = [r for r in eng.run(fn, [sym.Ref(("h", "b"), (), True)] + a1, mem={("h", "b"): b0}, pc=list(pre)) if r.status == "return"]
+        except mir.Unsupported as ex:
+            ctx.ob("types/%s/encodable" % name, None, str(ex)[:300])
+            continue
+        if len(r1) != 1:
+            ctx.ob("types/%s/first-request" % name, None, "%d paths" % len(r1))
+            continue
+        b1 = r1[0].mem[("h", "b")]
+        tgv = fields["Module"].index("types_global_values")
+        n_after_first = len(b1.fields[bidx["module"]].fields[tgv].items)
+        st, m = q.check(r1[0].pc + [z3.Or(r1[0].value != nid, b1.fields[bidx["next_id"]] != nid + 1)], "first-type-request")
+        ok1 = st == "unsat" and n_after_first == 1
+        ctx.ob("types/%s/first-request-appends-fresh" % name, True if ok1 else False)
+        if not ok1:
+            ctx.violation("builder-types/%s/first-request" % name, "%s on an empty module does not append one declaration with the fresh id" % name, {"method": name})
+            continue
+        has_id_param = any(ty.startswith("std::option::Option<u32>") or ty.startswith("Option<u32>") for _, ty in fn.args[1:])
+        for explicit in ((False, True) if has_id_param else (False,)):
+            eng2 = sym.Engine([mf, ms], registry, models=base.MODELS + bsweep.EXTRA_MODELS, eager=True, loop_bound=6)
+            w = z3.BitVec("explicit_id", 32)
+            a2 = []
+            for loc, ty in fn.args[1:]:
+                if ty.startswith("std::option::Option<u32>") or ty.startswith("Option<u32>"):
+                    a2.append(sym.Adt("Option", "Some", [w]) if explicit else sym.Adt("Option", "None", []))
+                else:
+                    a2.append(bsweep.synth(eng2, ty, "second" + loc)[-1])
+            mem2 = dict(r1[0].mem)
+            res2 = eng2.run(fn, [sym.Ref(("h", "b"), (), True)] + a2, mem=mem2, pc=list(r1[0].pc))
+            same_req = args_equal(eng2, None, [x for x in a1 if not (isinstance(x, sym.Adt) and x.ty == "Option" and not x.fields and False)],
+                                  [y for y in a2])
+            # compare only the non-id arguments
+            pairs = [(x, y) for (x, y), (loc, ty) in zip(zip(a1, a2), fn.args[1:]) if not (ty.startswith("std::option::Option<u32>") or ty.startswith("Option<u32>"))]
+            same_req = args_equal(eng2, None, [p[0] for p in pairs], [p[1] for p in pairs])
+            for r in res2:
+                if r.status != "return":
+                    ctx.ob("types/%s/%s" % (name, "explicit" if explicit else "implicit"), None, "path ends in %s" % r.status)
+                    continue
+                b2 = r.mem[("h", "b")]
+                n2 = len(b2.fields[bidx["module"]].fields[tgv].items)
+                nxt = b2.fields[bidx["next_id"]]
+                # struct_eq on opaque operands introduces eq(...) atoms with the same naming; tie them to same_req through the path condition
+                if explicit:
+                    cond = z3.Or(r.value != w, nxt != nid + 1) if n2 == 2 else z3.BoolVal(True)
+                    if n2 == 2:
+                        last = b2.fields[bidx["module"]].fields[tgv].items[-1]
+                        rid = last.fields[2]
+                        cond = z3.Or(cond, rid.fields[0] != w) if rid.variant == "Some" else z3.BoolVal(True)
+                    st, m = q.check(r.pc + [cond], "explicit-type-request")
+                    good = st == "unsat"
+                    what = "a request with an explicit id must append a declaration carrying that id"
+                elif n2 == 1:
+                    st, m = q.check(r.pc + [z3.Or(r.value != nid, nxt != nid + 1, z3.Not(same_req))], "dedup-type-request")
+                    good = st == "unsat"
+                    what = "nothing appended: must be an identical request and return the earlier id without touching the counter"
+                else:
+                    last = b2.fields[bidx["module"]].fields[tgv].items[-1]
+                    rid = last.fields[2]
+                    c = z3.Or(r.value != nid + 1, nxt != nid + 2, same_req)
+                    if rid.variant == "Some":
+                        c = z3.Or(c, rid.fields[0] != nid + 1)
+                    else:
+                        c = z3.BoolVal(True)
+                    st, m = q.check(r.pc + [c], "fresh-type-request")
+                    good = st == "unsat"
+                    what = "appended: must be a different request, carry the fresh id and advance the counter by one"
+                tag = "types/%s/%s/%s" % (name, "explicit" if explicit else "implicit", "appended" if n2 == 2 else "deduplicated")
+                if good:
+                    ctx.ob(tag, True)
+                else:
+                    ctx.ob(tag, False if st == "sat" else None, what)
+                    if st == "sat":
+                        ctx.violation("builder-types/%s/%s" % (name, "explicit-id" if explicit else ("dedup" if n2 == 1 else "fresh")),
+                                      "Builder::%s, second request (%s id) on a module holding one declaration: %s" % (name, "explicit" if explicit else "implicit", what),
+                                      {"method": name})
+    rp.close()
+    # ---- module()/new()/new_from_module: compiled code through Kani
+    res = kani.run_many(["k_builder_module"], cap_s=300)
     kani.settle(ctx, res, lambda h: h[2:])
-    ctx.extra["states"] = sum(r.checks_total for r in res.values()) or 1
-    ctx.extra["transitions"] = len(hs)
-    ctx.extra["harness_times_s"] = {h: round(r.time, 1) for h, r in res.items()}
-    ctx.extra["explanation"] = "CBMC decides the id post-conditions for every counter value and every call / type request within the bounds."
+    ctx.extra["states"] = nchecked
+    ctx.extra["transitions"] = nchecked
+    ctx.extra["cvc5"] = q.summary()
+    ctx.extra["explanation"] = "Counter monotonicity / step / returned ids decided by z3 per MIR path of every Builder method; type requests over symbolic operands."
